@@ -876,9 +876,23 @@ fn optimizer_rules(cx: &mut Ctx, o: &Src) {
             if let syn::Expr::If(i) = e {
                 let (root, chain) = sm::method_chain(&i.cond);
                 let names: Vec<&str> = chain.iter().map(|c| c.0.as_str()).collect();
-                let all_const = sm::tsc(root) == "elts"
+                let mut all_const = sm::tsc(root) == "elts"
                     && names == ["iter", "all"]
                     && chain[1].1.get(0).and_then(|a| sm::closure1(a)).map_or(false, |(p, b)| sm::tsc(b) == format!("{}.is_constant_expr()", p));
+                // the same universal test written as a flag loop:
+                //   let mut F = true; for v in &elts { if !v.is_constant_expr() { F = false; break; } }  ...  if F
+                if !all_const {
+                    if let Some(flag) = sm::as_ident(&i.cond) {
+                        let arm_text = sm::tsc(&arm.body);
+                        let re = regex::Regex::new(&format!(r"letmut{}=true;for(\w+)in&?elts(?:\.iter\(\))?\{{(?:if!(\w+)\.is_constant_expr\(\)\{{{}=false;break;\}}|match(\w+)\.is_constant_expr\(\)\{{false=>\{{{}=false;break;\}},_=>\{{\}},\}})\}}", regex::escape(&flag), regex::escape(&flag), regex::escape(&flag))).unwrap();
+                        if let Some(c) = re.captures(&arm_text) {
+                            let v = c.get(1).map(|m| m.as_str()).unwrap_or("");
+                            let used = c.get(2).or(c.get(3)).map(|m| m.as_str()).unwrap_or("");
+                            // the flag is not written anywhere else
+                            all_const = v == used && arm_text.matches(&format!("{}=", flag)).count() == 2;
+                        }
+                    }
+                }
                 if all_const {
                     cond_found = true;
                     let then_t = sm::tsc(&i.then_branch);
